@@ -1,4 +1,5 @@
 """C01 — caches never change what a collector's own filter decides."""
+import os
 from checklib.main import Stream
 from checks import coregen
 import checklib.main as M
@@ -41,6 +42,35 @@ def extra(tier, seed, rng, res, broken):
         if v != 'ok':
             (hard if ('stranded' in v or 'wrong-delivery' in v or 'lost-delivery' in v or 'DEADLOCK' in v or 'PANIC' in v) else soft).append(('race', c, o, 'judge ' + v))
     res.spec_failures.extend(hard if hard else soft)
+    static_phase(tier, res, broken)
+
+def static_phase(tier, res, broken):
+    """the compile-time maximum level: a tiny program built once per level feature of `tracing` (debug profile) reports the
+    STATIC_MAX_LEVEL it got and which of error!…trace! reach a collector that accepts everything.  Oracle: `max_level_X` gives X,
+    a `release_max_level_X` feature changes nothing in a debug build, no feature gives TRACE; delivered iff level <= that"""
+    import subprocess
+    RANK = {'off': 0, 'error': 1, 'warn': 2, 'info': 3, 'debug': 4, 'trace': 5}
+    feats = [None, 'max_level_warn', 'release_max_level_info']
+    if broken or tier == 'thorough':
+        feats = [None] + ['max_level_' + k for k in RANK] + ['release_max_level_' + k for k in RANK]
+    crate = os.path.join(M.VERIF, 'harness-static')
+    env = dict(os.environ); env['CARGO_NET_OFFLINE'] = 'true'
+    for f in feats:
+        cmd = ['cargo', 'run', '--offline', '-q', '--bin', 'h_static'] + (['--features', f] if f else [])
+        try:
+            p = subprocess.run(cmd, cwd=crate, env=env, stdout=subprocess.PIPE, stderr=subprocess.PIPE, text=True, timeout=600)
+        except subprocess.TimeoutExpired:
+            res.errors.append('static phase: build with %s timed out' % f); continue
+        out = p.stdout.strip().split('\n')[-1] if p.stdout.strip() else ''
+        if p.returncode != 0 or not out.startswith('static='):
+            res.errors.append('static phase: %s: exit=%s %s' % (f, p.returncode, p.stderr[-300:])); continue
+        want = RANK[f[len('max_level_'):]] if (f and f.startswith('max_level_')) else 5
+        exp = 'static=%d delivered=%s' % (want, ''.join('1' if l <= want else '0' for l in range(1, 6)))
+        res.evaluations += 1
+        res.hist['static feature=%s' % (f or 'none')] = res.hist.get('static feature=%s' % (f or 'none'), 0) + 1
+        res.nontrivial.add('static ' + str(f))
+        if out != exp:
+            res.spec_failures.append(('static', 'debug build of tracing with feature %s' % (f or '(none)'), out, 'oracle ' + exp))
 
 def gen(rng, tier):
     n = 150 if tier == 'quick' else 3000
@@ -71,12 +101,12 @@ PROPERTY = {
                 'outside the quantifier; Arc/Weak modelled as "handle held or referenced by a scope/global".',
         'technique': 'Lean 4 proof (state invariant + induction over histories) of a hand-written model, correspondence-checked against the real crates',
     },
-    'lean_module': 'TracingModel.Props.C01R',
-    'leanchecker_modules': ['TracingModel.Props.C01'],
+    'lean_module': 'TracingModel.Props.C01S',
+    'leanchecker_modules': ['TracingModel.Props.C01', 'TracingModel.Props.C01R'],
     'extra_bins': ['h_race'],
     'namespace': 'C01',
-    'units': ['MacroGuards', 'RegistryLocks'],
-    'required_theorems': ['C01.delivery_iff', 'C01.inv_reachable', 'C01.never_suppresses', 'C01.never_causes', 'C01.macro_guard_shape',
+    'units': ['MacroGuards', 'RegistryLocks', 'StaticMaxLevel'],
+    'required_theorems': ['C01.static_level_table', 'C01.static_level_of_feature', 'C01.static_level_strictest', 'C01.delivery_iff', 'C01.inv_reachable', 'C01.never_suppresses', 'C01.never_causes', 'C01.macro_guard_shape',
                           'C01.registration_lock_discipline', 'C01.racing_first_hit_sound'],
     'streams': [Stream('hist', 'h_core', gen=gen, per_process=True, nontrivial=nontrivial, spec_mode='spec',
                        canon=lambda s: s)],
